@@ -149,37 +149,57 @@ theorem define_class_case (cs : Classes) (k1 k2 : Name) (hk : fold k1 = fold k2)
   cases hg : clsGet cs (fold k1) with
   | some c => simp [hg] at h
   | none =>
-    cases hd : dupFold (as1.map (·.1)) with
+    cases hd : badNames (as1.map (·.1)) with
     | true => simp [hg, hd] at h
     | false =>
       simp only [hg, hd, Bool.false_eq_true, ↓reduceIte, Option.some.injEq] at h
       subst h
       rw [← hk, clsGet_append_self cs _ _ hg]
 
-/-- a class whose attribute names coincide apart from letter case is rejected and nothing is defined; a class that
-    `define_class` accepts therefore satisfies the hypothesis `WF` of the theorems above (its declared names are
-    distinct after case folding; it has no referential attributes yet) -/
+/-- a class whose attribute names coincide apart from letter case, or one of whose attribute names python reserves for
+    itself (`__x__`, longer than four characters), is rejected and nothing is defined; a class that `define_class`
+    accepts therefore satisfies the hypothesis `WF` of the theorems above (its declared names are distinct after case
+    folding; it has no referential attributes yet) and has no reserved attribute name -/
 theorem define_class_checks_names (cs cs' : Classes) (k : Name) (attrs : List (Name × Name)) :
     (dupFold (attrs.map (·.1)) = true → defineClass cs k attrs = none) ∧
+    ((∃ a ∈ attrs, isReserved a.1 = true) → defineClass cs k attrs = none) ∧
     (defineClass cs k attrs = some cs' →
-      WF { kind := k, attrs := attrs, refs := [] } ∧ findMetaclass cs' k = some { kind := k, attrs := attrs, refs := [] }) := by
-  constructor
+      WF { kind := k, attrs := attrs, refs := [] } ∧ findMetaclass cs' k = some { kind := k, attrs := attrs, refs := [] } ∧
+      ∀ a ∈ attrs, isReserved a.1 = false) := by
+  refine ⟨?_, ?_, ?_⟩
   · intro hd
-    unfold defineClass
+    unfold defineClass badNames
     cases clsGet cs (fold k) <;> simp [hd]
+  · intro ⟨a, ha, hr⟩
+    have : (attrs.map (·.1)).any isReserved = true := by
+      rw [List.any_eq_true]
+      exact ⟨a.1, List.mem_map_of_mem ha, hr⟩
+    unfold defineClass badNames
+    cases clsGet cs (fold k) <;> simp [this]
   · intro h
     unfold defineClass at h
     cases hg : clsGet cs (fold k) with
     | some c => simp [hg] at h
     | none =>
-      cases hd : dupFold (attrs.map (·.1)) with
+      cases hd : badNames (attrs.map (·.1)) with
       | true => simp [hg, hd] at h
       | false =>
         simp only [hg, hd, Bool.false_eq_true, ↓reduceIte, Option.some.injEq] at h
         subst h
-        refine ⟨⟨nodup_of_not_dupFold _ hd, fun r hr => by simp at hr⟩, ?_⟩
-        unfold findMetaclass
-        exact clsGet_append_self cs _ _ hg
+        unfold badNames at hd
+        rw [Bool.or_eq_false_iff] at hd
+        refine ⟨⟨nodup_of_not_dupFold _ hd.2, fun r hr => by simp at hr⟩, ?_, ?_⟩
+        · unfold findMetaclass
+          exact clsGet_append_self cs _ _ hg
+        · intro a ha
+          cases hr : isReserved a.1 with
+          | false => rfl
+          | true =>
+            have : (attrs.map (·.1)).any isReserved = true := by
+              rw [List.any_eq_true]
+              exact ⟨a.1, List.mem_map_of_mem ha, hr⟩
+            rw [this] at hd
+            exact absurd hd.1 (by decide)
 
 /-- creation and selection address the class through `find_metaclass`: every spelling behaves the same -/
 theorem new_select_case (w : World) (k1 k2 : Name) (hk : fold k1 = fold k2) (args : List Val)
@@ -234,7 +254,7 @@ namespace PyxProps.C10
 open Pyx.Attr Pyx.AShape Pyx.Gen.AttrShape
 
 theorem attribute_access_as_in_source (c : Cls) (d : Dict) (sp : Name) (v : Val) :
-    getattr c d sp = iGetattr getShape c d sp ∧
+    iGetattr getShape c d sp = some (getattr c d sp) ∧
     setattr c d sp v = iSetattr setShape c d sp v ∧
     delattr d sp = iDelattr delMatch d sp ∧
     attrType c sp = iAttrType attributeTypeMatch c sp :=
@@ -242,20 +262,38 @@ theorem attribute_access_as_in_source (c : Cls) (d : Dict) (sp : Name) (v : Val)
 
 theorem class_table_as_in_source (cs : Classes) (kind : Name) (attrs : List (Name × Name)) :
     findMetaclass cs kind = iFind findTestKey findReadKey cs kind ∧
-    defineClass cs kind attrs = iDefine defineTestKey defineStoredKind defineStoreKey defineAttrCollision cs kind attrs :=
+    defineClass cs kind attrs =
+      iDefine defineTestKey defineStoredKind defineStoreKey defineAttrCollision defineReserved cs kind attrs :=
   ⟨findMetaclass_eq cs kind, defineClass_eq cs kind attrs⟩
 
 /-! non-vacuity: the interpreter runs the generated shapes; other shapes are other functions (a write that stored
     under the GIVEN spelling after overwriting — the original defect —, a duplicate test on the name as given) -/
-example : iGetattr getShape cB dB ['N', 'M'] = .val (.str []) ∧ iGetattr getShape cB dB ['a', '_', 'i', 'd'] = .prop ['A', '_', 'I', 'd'] ∧
+example : iGetattr getShape cB dB ['N', 'M'] = some (.val (.str [])) ∧ iGetattr getShape cB dB ['a', '_', 'i', 'd'] = some (.prop ['A', '_', 'I', 'd']) ∧
     iSetattr setShape cB dB ['n', 'M'] (.int 5) = ([(['I', 'd'], .int 7), (['N', 'm'], .int 5)], .ok) ∧
     iSetattr setShape cB dB ['a', '_', 'i', 'd'] (.int 5) = (dB, .metaExc) ∧
     iDelattr delMatch dB ['I', 'D'] = ([(['N', 'm'], .str [])], .ok) := by decide
+/-- a fall-through `return self.__dict__[name]` is another function: an unknown name gives KeyError (`none`) where the source
+    gives AttributeError; so is a matched branch that reads under the GIVEN spelling while it tested the declared one -/
+example : iGetattr getShape cB dB ['z', 'z'] = some .attrError ∧
+    iGetattr { getShape with noMatch := .dictValueGiven } cB dB ['z', 'z'] = none ∧
+    iGetattr { getShape with inDict := .dictValue .given } cB dB ['N', 'M'] = none := by decide
 example : iSetattr { setShape with inDict := .dictStore .given } cB dB ['n', 'M'] (.int 5) =
     ([(['I', 'd'], .int 7), (['N', 'm'], .str []), (['n', 'M'], .int 5)], .ok) := by decide
-example : iDefine .asGiven defineStoredKind defineStoreKey defineAttrCollision [(['A', 'B'], cB)] ['a', 'b'] [] ≠ none ∧
-    iDefine defineTestKey defineStoredKind defineStoreKey defineAttrCollision [(['A', 'B'], cB)] ['a', 'b'] [] = none ∧
-    iDefine defineTestKey defineStoredKind defineStoreKey defineAttrCollision [] ['C'] [(['N', 'm'], ['s']), (['n', 'M'], ['s'])] = none ∧
-    iDefine defineTestKey defineStoredKind defineStoreKey none [] ['C'] [(['N', 'm'], ['s']), (['n', 'M'], ['s'])] ≠ none := by decide
+example : iDefine .asGiven defineStoredKind defineStoreKey defineAttrCollision defineReserved [(['A', 'B'], cB)] ['a', 'b'] [] ≠ none ∧
+    iDefine defineTestKey defineStoredKind defineStoreKey defineAttrCollision defineReserved [(['A', 'B'], cB)] ['a', 'b'] [] = none ∧
+    iDefine defineTestKey defineStoredKind defineStoreKey defineAttrCollision defineReserved [] ['C'] [(['N', 'm'], ['s']), (['n', 'M'], ['s'])] = none ∧
+    iDefine defineTestKey defineStoredKind defineStoreKey none defineReserved [] ['C'] [(['N', 'm'], ['s']), (['n', 'M'], ['s'])] ≠ none := by decide
+/-- reserved names: `__class__` is refused, `____` (four characters) and `__a` are not; without the check (IR `none`), or
+    with another length bound, it is another function -/
+example : iDefine defineTestKey defineStoredKind defineStoreKey defineAttrCollision defineReserved [] ['C']
+      [(['_', '_', 'c', 'l', 'a', 's', 's', '_', '_'], ['s'])] = none ∧
+    iDefine defineTestKey defineStoredKind defineStoreKey defineAttrCollision none [] ['C']
+      [(['_', '_', 'c', 'l', 'a', 's', 's', '_', '_'], ['s'])] ≠ none ∧
+    iDefine defineTestKey defineStoredKind defineStoreKey defineAttrCollision defineReserved [] ['C']
+      [(['_', '_', '_', '_'], ['s']), (['_', '_', 'a'], ['s'])] ≠ none ∧
+    iDefine defineTestKey defineStoredKind defineStoreKey defineAttrCollision (some { minLen := 3, pre := ['_', '_'], suf := ['_', '_'] })
+      [] ['C'] [(['_', '_', '_', '_'], ['s'])] = none := by decide
+example : isReserved ['_', '_', 'x', '_', '_'] = true ∧ isReserved ['_', '_', '_', '_'] = false ∧
+    isReserved ['_', '_', 'i', 'n', 'i', 't', '_'] = false ∧ isReserved ['I', 'd'] = false := by decide
 
 end PyxProps.C10
